@@ -124,7 +124,8 @@ WriteLaw == [][hist'.last.op = "Write" =>
                  LET s == hist'.last.slot  L == hist'.last.a  old == Data(s)  new == streams'[hs[s].name] IN
                  /\ ChLen(new) = (IF hs[s].pos + L > ChLen(old) THEN hs[s].pos + L ELSE ChLen(old))
                  /\ ReadAt(new, hs[s].pos, L) = <<Chunk(nw + 1, 0, L)>>
-                 /\ Take(new, hs[s].pos) = Take(old, hs[s].pos)]_vars
+                 /\ Take(new, hs[s].pos) = Take(old, hs[s].pos)
+                 /\ hs'[s].pos = hs[s].pos + L]_vars              \* the cursor ends behind the bytes written
 ReadOnly == [][hist'.last.op \in {"Read", "Seek", "FlushH", "Close", "OpenR", "Reopen", "TableOp", "FlushPkg"} => streams' = streams]_vars
 \* every edge: the path, the event with its specified result, and the contents of the streams nobody is working on
 Emit == PrintT(<<"EDGE", ToJson([path |-> hist'.path, ev |-> hist'.last, quiet |-> IF defined' THEN Observable(streams') ELSE << >>])>>)
